@@ -45,7 +45,11 @@ def warping_paths{{ suffix }}(
     req_length = dtaidistancec_dtw.dtw_settings_wps_length(len(s1), len(s2), &settings._settings)
     req_width = dtaidistancec_dtw.dtw_settings_wps_width(len(s1), len(s2), &settings._settings)
     shape = (1, req_length)
-    if req_length == dtw_length and req_width == dtw.shape[1]:
+    # The given matrix can only serve as the compact array if no row of the compact layout is shifted
+    direct = (req_length == dtw_length and req_width == dtw.shape[1] and
+              (settings._settings.window == 0 or
+               settings._settings.window + max(0, len(s1) - len(s2)) >= len(s1)))
+    if direct:
         # No compact WPS array is required
         wps = dtw
     else:
@@ -58,7 +62,7 @@ def warping_paths{{ suffix }}(
     cdef seq_t [:, :] wps_view = wps
     cdef seq_t d
     {{ select_c_fn("wps_view")}}
-    if not (req_length == dtw_length and req_width == dtw.shape[1]):
+    if not direct:
         {%- if "affinity" in suffix %}
         dtaidistancec_dtw.dtw_expand_wps_affinity(&wps_view[0,0], &dtw[0, 0], len(s1), len(s2), &settings._settings)
         {%- else %}
